@@ -54,6 +54,10 @@ CHECKS = {
          "Generated-history search: start and stop are placed at every suspension point of the polling loop (sleep, back-pressured emit, before the loop first runs) because the harness owns the loop. Exploration only.",
          "Trusted: virtual loop; the run()/_run() override points as observation points; iterables are iterators.",
          "DESIGN.md section 4 C18"),
+ "C17": ("Hypothesis-generated byte-level chunkings of generated text x poll placements x delimiters x from_end on real temporary files (virtual clock), reference oracle text.split(d); generated file-creation orders for filenames; thorough tier adds a coverage-guided atheris campaign on the same structured case and oracle",
+         "Generated-input search over write chunkings and poll placements against the reference record list; plus coverage-guided fuzzing (atheris/libFuzzer, streamz.sources instrumented) in the thorough tier. Exploration only.",
+         "Trusted: the OS file semantics (append + read), the harness flushing each chunk before the poll; alphabet without carriage returns.",
+         "DESIGN.md section 4 C17"),
 }
 NOT_YET = "check not built yet in this session (the property is decidable with this technique; see DESIGN.md section 4)"
 
